@@ -206,7 +206,7 @@ class IH5Record(IH5Group):
     @classmethod
     def _is_valid_record_name(cls, name: str) -> bool:
         """Return whether a record name is valid."""
-        return re.match(f"^[{cls._ALLOWED_NAME_CHARS}]+$", name) is not None
+        return re.fullmatch(f"[{cls._ALLOWED_NAME_CHARS}]+", name) is not None
 
     @classmethod
     def _base_filename(cls, record_path: Path) -> Path:
